@@ -60,6 +60,10 @@ READING OF PYTHON (the trusted part; the Coq side of every item is defined in co
              `break` in a for loop = a flag; later iterations are skipped.  a % b on ints = py_mod (ZeroDivisionError).
              `attr_identity`: a declared attribute is read as the object itself (a solution represented by its
              normalized_objectives vector in indicators.Hypervolume).
+  phase 4    range(a, b) and range(a, b, -1) = for_range2 / for_range_down; [v] * n = py_repeat; raise X(...) = Raise (the
+             kind of exception is not kept); A[i][j] = v / op= v on an owned list of lists reads the row, updates it and
+             stores it back (rows are assumed not to be shared between positions); a break belongs to its innermost loop,
+             so an inner while with break inside an outer while is accepted.
 Anything else raises Unsupported naming the construct and line: the function is NOT emitted, its
 `translate:<function>` obligation is broken, and every Tie file that mentions it no longer builds.
 """
@@ -291,6 +295,10 @@ SPECS += [
          L(T),
          effects={"nondominated_sort": {"reads": [], "writes": [], "vals": [L(T)], "inplace": [0], "partial": True}}),
 ]
+SPECS += [
+    # lsolve(A, b): A and b are updated in place (owned by the call); result = (A, b, x)
+    Spec("lsolve", "platypus/_math.py", "lsolve", [("EPSILON", "eps", V), ("0", "A", L(L(V))), ("1", "b", L(V))], L(V), state=["0", "1"]),
+]
 PT = L(V)       # a solution represented by its normalized_objectives vector
 HV = dict(attr_identity=["normalized_objectives"])
 SPECS += [
@@ -300,6 +308,11 @@ SPECS += [
          [("1", "solutions", L(PT)), ("2", "i", Z), ("3", "j", Z)], None, state=["1"], **HV),
     Spec("Hypervolume_surface_unchanged_to", "platypus/indicators.py", "Hypervolume.surface_unchanged_to",
          [("1", "solutions", L(PT)), ("2", "nsols", Z), ("3", "obj", Z)], V, **HV),
+    Spec("Hypervolume_filter_nondominated", "platypus/indicators.py", "Hypervolume.filter_nondominated",
+         [("fuel", "fuel", "nat"), ("0.dominates", "dominates", F([PT, PT, Z], B, partial=True)),
+          ("0.swap", "swap", F([L(PT), Z, Z], L(PT), partial=True)),
+          ("1", "solutions", L(PT)), ("2", "nsols", Z), ("3", "nobjs", Z)], Z, state=["1"],
+         effects={"0.swap": {"args": ["1"], "vals": [Z, Z], "reads": ["1"], "writes": ["1"], "partial": True}}, **HV),
     Spec("Hypervolume_reduce_set", "platypus/indicators.py", "Hypervolume.reduce_set",
          [("fuel", "fuel", "nat"), ("0.swap", "swap", F([L(PT), Z, Z], L(PT), partial=True)),
           ("1", "solutions", L(PT)), ("2", "nsols", Z), ("3", "obj", Z), ("4", "threshold", V)], Z, state=["1"],
@@ -319,7 +332,7 @@ RESERVED = set("""
 as at cofix else end exists exists2 fix for forall fun if IF in let match mod return Set Prop Type then using where with
 V O T Z Q nat list bool option true false Some None tt negb andb orb xorb fst snd pair map seq nth length app rev
 ctl Next Ret Raise bind get finish for_list for_range while_fuel zrange py_index py_len map_opt py_compress py_any py_zip
-py_upto py_from py_but_last py_div py_min py_max b2z py_last NumOps Qops yielded brk obind py_sum py_upto_z py_list_min py_list_max py_mod world py_set list_upd
+py_upto py_from py_but_last py_div py_min py_max b2z py_last NumOps Qops yielded brk obind py_sum py_upto_z py_list_min py_list_max py_mod world py_set list_upd py_repeat for_range2 for_range_down zrange2 zrange_down
 n_lt n_le n_eq n_neg n_add n_sub n_mul n_div n_abs n_floor n_of_Z n_lit
 """.split())
 
@@ -747,6 +760,8 @@ class FnTranslator:
             if a.ty != b.ty:
                 raise Unsupported("concatenation of lists of different element types", n)
             return X("%s ++ %s" % (atom(a.s), atom(b.s)), a.ty, fresh=True)
+        if op == "Mult" and is_list(a.ty) and isinstance(n.left, ast.List) and len(n.left.elts) == 1 and settle(b).ty == Z:
+            return X("py_repeat %s %s" % (atom(a.s[1:-1]), atom(settle(b).s)), a.ty, fresh=True)
         if op == "BitXor":
             if a.ty == B and b.ty == B:
                 return X("xorb %s %s" % (atom(a.s), atom(b.s)), B)
@@ -1111,14 +1126,48 @@ class FnTranslator:
 
     def always_returns(self, stmts):
         for s in stmts:
-            if isinstance(s, (ast.Return, ast.Break)):
+            if isinstance(s, (ast.Return, ast.Break, ast.Raise)):
                 return True
             if isinstance(s, ast.If) and s.orelse and self.always_returns(s.body) and self.always_returns(s.orelse):
                 return True
         return False
 
     def has_return(self, stmts):
-        return any(isinstance(x, (ast.Return, ast.Break)) for s in stmts for x in ast.walk(s))
+        def walk(ss):
+            for st in ss:
+                if isinstance(st, (ast.Return, ast.Break, ast.Raise)):
+                    return True
+                if isinstance(st, ast.If) and (walk(st.body) or walk(st.orelse)):
+                    return True
+                if isinstance(st, (ast.For, ast.While)) and any(isinstance(x, (ast.Return, ast.Raise)) for y in st.body for x in ast.walk(y)):
+                    return True
+            return False
+        return walk(stmts)
+
+    @staticmethod
+    def own_breaks(loop):
+        """break/continue statements whose innermost enclosing loop is `loop`"""
+        out = []
+
+        def walk(stmts):
+            for st in stmts:
+                if isinstance(st, (ast.Break, ast.Continue)):
+                    out.append(st)
+                elif isinstance(st, (ast.For, ast.While)):
+                    walk(st.orelse)
+                elif isinstance(st, ast.If):
+                    walk(st.body)
+                    walk(st.orelse)
+        walk(loop.body)
+        return out
+
+    def s_Raise(self, s, rest, env, tail):
+        """raise X(...): an exception; its kind is not distinguished"""
+        if self.pure:
+            raise NeedCtl()
+        if [r for r in rest if not self.ignorable(r)]:
+            raise Unsupported("unreachable statements after raise", rest[0])
+        return ["Raise"]
 
     def s_Break(self, s, rest, env, tail):
         if not self.loop_tails:
@@ -1142,6 +1191,8 @@ class FnTranslator:
                 for e in t.elts:
                     tgt(e)
             elif isinstance(t, ast.Subscript) and not isinstance(t.slice, ast.Slice):
+                if isinstance(t.value, ast.Subscript) and not isinstance(t.value.slice, ast.Slice):
+                    t = t.value
                 p = self.path_of(t.value, env) if env is not None else None
                 if p is not None and p in self.spec.state:
                     add("@" + p)
@@ -1445,6 +1496,29 @@ class FnTranslator:
                 continue
             if isinstance(t.slice, ast.Slice):
                 raise Unsupported("slice store", s)
+            if isinstance(t.value, ast.Subscript) and not isinstance(t.value.slice, ast.Slice):
+                # A[i][j] = v : the row A[i] is read, updated, and stored back (rows are assumed not to be shared)
+                kind, key, lst = self.owned_list(t.value.value, env, s)
+                if not (is_list(lst.ty) and is_list(lst.ty[1])):
+                    raise Unsupported("nested item store into a list that is not a list of lists", s)
+                H2 = []
+                i1 = coerce(self.expr(t.value.slice, env, H2), Z, t.value.slice)
+                j1 = coerce(self.expr(t.slice, env, H2), Z, t.slice)
+                for nm, tx in H2:
+                    lines_pre.append("get (%s) (fun %s =>" % (tx, nm))
+                    opens += 1
+                row, row2 = env.fresh("row"), env.fresh("row")
+                xv = coerce(x, lst.ty[1][1], s)
+                if kind == "state":
+                    c = env.inputs[key][0] + "'"
+                    env.state[key] = (c, env.inputs[key][1])
+                else:
+                    c = env.bind(key, lst.ty)
+                lines_pre.append("get (py_index %s %s) (fun %s =>" % (atom(lst.s), atom(i1.s), row))
+                lines_pre.append("get (py_set %s %s %s) (fun %s =>" % (row, atom(j1.s), atom(xv.s), row2))
+                lines_pre.append("get (py_set %s %s %s) (fun %s =>" % (atom(lst.s), atom(i1.s), row2, c))
+                opens += 3
+                continue
             kind, key, lst = self.owned_list(t.value, env, s)
             H2 = []
             idx = coerce(self.expr(t.slice, env, H2), Z, t.slice)
@@ -1674,16 +1748,11 @@ class FnTranslator:
             raise NeedCtl()
         if s.orelse:
             raise Unsupported("for/else", s)
-        has_break = False
-        for x in ast.walk(s):
-            if isinstance(x, ast.Continue):
-                raise Unsupported("continue", x)
-            if isinstance(x, ast.Break):
-                has_break = True
-        for st in s.body:
-            for x in ast.walk(st):
-                if isinstance(x, (ast.For, ast.While)) and any(isinstance(y, ast.Break) for y in ast.walk(x)):
-                    raise Unsupported("break inside a nested loop", x)
+        own = self.own_breaks(s)
+        for x in own:
+            if not isinstance(x, ast.Break):
+                raise Unsupported(type(x).__name__.lower(), x)
+        has_break = bool(own)
         if not isinstance(s.target, ast.Name):
             raise Unsupported("loop target " + type(s.target).__name__, s)
         stored = self.assigned(s.body, env)
@@ -1730,12 +1799,17 @@ class FnTranslator:
         it = s.iter
         H = []
         if isinstance(it, ast.Call) and isinstance(it.func, ast.Name) and it.func.id == "range" and "range" not in env.names:
-            if len(it.args) != 1 or it.keywords:
-                raise Unsupported("range with a start or a step", it)
+            if it.keywords or len(it.args) not in (1, 2, 3) or (len(it.args) == 3 and self.const_int(it.args[2]) != -1):
+                raise Unsupported("range other than range(n), range(a, b), range(a, b, -1)", it)
             if self.pure:
                 raise NeedCtl()
-            n = coerce(self.expr(it.args[0], env, H), Z, it)
-            lines = self.loop(s, rest, env, tail, Z, "for_range " + atom(n.s), "")
+            rargs = [coerce(self.expr(a, env, H), Z, it) for a in it.args[:2]]
+            if len(it.args) == 1:
+                lines = self.loop(s, rest, env, tail, Z, "for_range " + atom(rargs[0].s), "")
+            elif len(it.args) == 2:
+                lines = self.loop(s, rest, env, tail, Z, "for_range2 %s %s" % (atom(rargs[0].s), atom(rargs[1].s)), "")
+            else:
+                lines = self.loop(s, rest, env, tail, Z, "for_range_down %s %s" % (atom(rargs[0].s), atom(rargs[1].s)), "")
         else:
             if self.pure:
                 raise NeedCtl()
@@ -1752,16 +1826,11 @@ class FnTranslator:
             raise NeedCtl()
         if s.orelse:
             raise Unsupported("while/else", s)
-        has_break = False
-        for x in ast.walk(s):
-            if isinstance(x, ast.Continue):
-                raise Unsupported("continue", x)
-            if isinstance(x, ast.Break):
-                has_break = True
-        for st in s.body:
-            for x in ast.walk(st):
-                if isinstance(x, (ast.For, ast.While)) and any(isinstance(y, ast.Break) for y in ast.walk(x)):
-                    raise Unsupported("break inside a nested loop", x)
+        own = self.own_breaks(s)
+        for x in own:
+            if not isinstance(x, ast.Break):
+                raise Unsupported(type(x).__name__.lower(), x)
+        has_break = bool(own)
         if "fuel" not in self.spec.inputs[0][0:1]:
             raise Unsupported("while loop (no fuel parameter declared for this function)", s)
         self.uses_fuel = True
